@@ -137,6 +137,15 @@ def l112(a_state, quick):
             world.inject(hostile(kind, tick, world, pa), A)
             if not quick:
                 world.inject(hostile(kinds[choose(len(kinds), 'hostile_kind2')], tick + 100, world, pa), A)
+        if tick == 6 and a_state == 'connected':
+            # the address under attack belongs to an honest established client (the attacker spoofed it): it keeps talking
+            pa.absorb()
+            p, L = rope.blob('a_app', 1, 60)
+            pa.c.send(p, RetryMode.NONE, None)
+            pa.sent_payloads.append(p)
+            raw = pa.emit()
+            if raw is not None:
+                world.inject(raw, A)
         if tick == 6 and 'obj' in b_snap:
             # one loop iteration later: the hostile datagram has been processed, B has not sent anything in between
             b_snap['after'] = proto.snapshot(b_snap['obj'])
@@ -148,6 +157,10 @@ def l112(a_state, quick):
     check(loop.lifecycle_ok(ev) == [], 'handler lifecycle intact under hostile traffic')
     msgs_b = [e for e in ev if e[0] == 'message' and e[1].addr == B]
     check(len(msgs_b) == 1, 'the established client is still served: its message is delivered')
+    if a_state == 'connected':
+        msgs_a = [e for e in ev if e[0] == 'message' and e[1].addr == A]
+        check(len(msgs_a) == 1, 'a client whose address was used for hostile datagrams is still served (spoofed source cannot cut it off)')
+        check(len([e for e in ev if e[0] == 'disconnect' and e[1].addr == A]) <= 1, 'and is not disconnected before shutdown')
     connects_b = [e for e in ev if e[0] == 'connect' and e[1].addr == B]
     check(len(connects_b) == 1, 'the established client connected exactly once')
     if 'before' in b_snap and 'after' in b_snap:
